@@ -24,6 +24,9 @@ func main() {
 		only    = flag.Int("only", -1, "keep only this history index (debugging)")
 		claim   = flag.String("claim", "", "property whose oracle findings are violations (default: none)")
 		include = flag.String("include", "", "comma separated oracle families that also count as violations of the claimed property")
+		mode    = flag.String("mode", "random", "random | memokeys (exhaustive key sequences through a BindMemoized)")
+		length  = flag.Int("len", 5, "memokeys: key sequences up to this length")
+		par     = flag.Int("par", 0, "if > 0: replay every history on a graph driven by ParallelStabilize with this parallelism, compare with the serial run, and record the PARALLEL run for the model")
 	)
 	flag.Parse()
 	rep := hx.NewReport("incrtrace/"+*prop, *seed)
@@ -33,10 +36,28 @@ func main() {
 	distinct := hx.Distinct{}
 	reported := map[string]int{}
 	var cases []string
+	var memo [][]eng.Op
+	if *mode == "memokeys" {
+		memo = eng.MemoKeyHistories(*length, rng)
+		*count = len(memo)
+		prof.Name = "memokeys"
+	}
 	for i := 0; i < *count; i++ {
-		e, mon := eng.RunRandom(rng.Fork(), prof)
+		var e *eng.Exec
+		var mon *eng.Monitor
+		if memo != nil {
+			e, mon, _ = eng.Replay(prof.MaxHeight, memo[i])
+		} else {
+			e, mon = eng.RunRandom(rng.Fork(), prof)
+		}
+		findings := mon.Findings
+		if *par > 0 {
+			pe, _, pf := eng.RunTwin(e, *par)
+			findings = pf
+			e = pe
+		}
 		seenKind := map[string]bool{}
-		for _, f := range mon.Findings {
+		for _, f := range findings {
 			sig := f.Prop + ":" + f.Kind
 			if seenKind[sig] {
 				continue
@@ -51,9 +72,12 @@ func main() {
 				continue
 			}
 			reported[sig]++
-			small := eng.Shrink(prof.MaxHeight, e.Ops[:min(f.Op+1, len(e.Ops))], f.Prop, f.Kind)
+			small := e.Ops[:min(f.Op+1, len(e.Ops))]
+			if *par == 0 {
+				small = eng.Shrink(prof.MaxHeight, small, f.Prop, f.Kind)
+			}
 			what := f.What
-			if _, m2, ok := eng.Replay(prof.MaxHeight, small); ok {
+			if _, m2, ok := eng.Replay(prof.MaxHeight, small); ok && *par == 0 {
 				for _, f2 := range m2.Findings {
 					if f2.Prop == f.Prop && f2.Kind == f.Kind {
 						what = f2.What
@@ -100,7 +124,7 @@ func main() {
 				fmt.Printf("%3d %-50s %s ev=%v heap=%v reg=%v vals=%v\n", j, o.String(), e.Samples[j].Class, e.Samples[j].Events, e.Samples[j].Heap, e.Samples[j].Reg, e.Samples[j].Vals)
 			}
 		}
-		if len(cases) < *coqMax {
+		if len(cases) < *coqMax && (memo == nil || i%(len(memo) / *coqMax + 1) == 0) {
 			cases = append(cases, e.CoqCase())
 		}
 		if i < 2 {
@@ -111,11 +135,23 @@ func main() {
 	rep.CoqCases = len(cases)
 	rep.Rule = fmt.Sprintf("%d random histories of %d well-formed operations (profile %s); non-trivial = some pass ran >= 2 node "+
 		"functions after a write; distinct by operation sequence", *count, *ops, prof.Name)
+	if memo != nil {
+		rep.Exhaustive = true
+		rep.Rule = fmt.Sprintf("every key sequence of length <= %d over 4 keys through one BindMemoized with 4 right-hand-side templates "+
+			"(constant, reads an outer node, nested bind, map2 of the key and an outer node), each sequence alone, with an outer-input write "+
+			"before every position, and with a cache Purge/Clear before every position (sampled beyond length 5), then unobserve: %d "+
+			"histories; non-trivial = some pass ran >= 2 node functions after a write", *length, len(memo))
+	}
 	if *coqOut != "" {
 		var b strings.Builder
-		b.WriteString("From incr Require Import Base Heap EngineDefs Engine EngineRun.\nDefinition cases : list case := [\n")
+		b.WriteString("From incr Require Import Base Heap EngineDefs Engine EngineRun EngineWf Spec.\nDefinition cases : list case := [\n")
 		b.WriteString(strings.Join(cases, ";\n"))
 		b.WriteString("].\nDefinition M := Eval vm_compute in mismatches cases.\nPrint M.\n")
+		// the model's own invariants along the same histories: the quiescent well-formedness after
+		// every operation (W) and local consistency + agreement with the from-scratch evaluator
+		// after every successful pass without mid-pass writes (C)
+		b.WriteString("Definition W := Eval vm_compute in omap (fun c : case => wf_trace (init (fst (fst c))) (map fst (snd c)) 0) cases.\nPrint W.\n")
+		b.WriteString("Definition C := Eval vm_compute in omap (fun c : case => c01_trace (init (fst (fst c))) (map fst (snd c)) 0) cases.\nPrint C.\n")
 		if err := os.WriteFile(*coqOut, []byte(b.String()), 0o644); err != nil {
 			fmt.Fprintln(os.Stderr, err)
 			os.Exit(2)
